@@ -1,18 +1,39 @@
 /-
-Float models of the sizing formulas (`BloomFilter::with_properties`, `CuckooFilter::with_properties_*`,
-`CountMinSketch::with_point_query_properties`, `LossyCounter::with_epsilon`, `LossyCounter::query`'s bound).
-Executable glue at `Float`; the exact-arithmetic statements about them are in the proof files.
+Models of the sizing formulas (`BloomFilter::with_properties`, `CuckooFilter::with_properties_*`,
+`CountMinSketch::with_point_query_properties`, `LossyCounter::with_epsilon`, the bound of
+`LossyCounter::query`, `BloomFilter::len`), written once over a carrier `α` with the operations
+the code uses, so that they run at `Float` in the driver and are reasoned about over `ℝ`.
+`floorNat` is the `as usize` truncation of a non-negative value (negative / NaN give 0),
+`ceilNat` is `.ceil() as usize`.
 -/
 namespace Pds.Sizing
 
-def toUsize (x : Float) : Nat := x.toUInt64.toNat
+class Transc (α : Type) where
+  log : α → α
+  log2 : α → α
+  exp : α → α
+  floorNat : α → Nat
+  ceilNat : α → Nat
+
+instance : Transc Float where
+  log := Float.log
+  log2 := Float.log2
+  exp := Float.exp
+  floorNat x := x.toUInt64.toNat
+  ceilNat x := x.ceil.toUInt64.toNat
+
+instance : NatCast Float := ⟨Float.ofNat⟩
+
+section
+variable {α : Type} [Add α] [Sub α] [Mul α] [Div α] [Neg α] [LT α] [DecidableLT α] [NatCast α]
+  [OfNat α 0] [OfNat α 1] [Transc α]
 
 /-- `(k, m)` of `BloomFilter::with_properties(n, p)`; `none` = assertion panic -/
-def bloomParams (n : Nat) (p : Float) : Option (Nat × Nat) :=
-  if n > 0 ∧ p > 0 ∧ p < 1 then
-    let k := toUsize (-(p.log2))
-    let ln2 := Float.log 2
-    let m := toUsize (-(Float.ofNat n * p.log) / (ln2 * ln2))
+def bloomParams (n : Nat) (p : α) : Option (Nat × Nat) :=
+  if 0 < n ∧ 0 < p ∧ p < 1 then
+    let k := Transc.floorNat (-(Transc.log2 p))
+    let ln2 : α := Transc.log ((2 : Nat) : α)
+    let m := Transc.floorNat (-(((n : Nat) : α) * Transc.log p) / (ln2 * ln2))
     some (max k 1, max m 1)
   else none
 
@@ -20,27 +41,34 @@ def nextPow2 (n : Nat) : Nat := if n ≤ 1 then 1 else 2 ^ (Nat.log2 (n - 1) + 1
 
 /-- `(bucketsize, n_buckets, l_fingerprint)` of `with_properties_and_hash_n`; `none` = the
 assertions on the arguments fire (the constructor's own checks come afterwards) -/
-def cuckooParams (bucketsize : Nat) (loadFactor p : Float) (n : Nat) : Option (Nat × Nat × Nat) :=
-  if n ≥ 1 ∧ p > 0 ∧ p < 1 then
-    let l := toUsize ((2.0 * Float.ofNat bucketsize / p).log2.ceil)
-    let costs := Float.ofNat l / loadFactor
-    let nb := nextPow2 (toUsize ((costs * Float.ofNat n / Float.ofNat l).ceil))
+def cuckooParams (bucketsize : Nat) (loadFactor p : α) (n : Nat) : Option (Nat × Nat × Nat) :=
+  if 1 ≤ n ∧ 0 < p ∧ p < 1 then
+    let l := Transc.ceilNat (Transc.log2 (((2 : Nat) : α) * ((bucketsize : Nat) : α) / p))
+    let costs : α := ((l : Nat) : α) / loadFactor
+    let nb := nextPow2 (Transc.ceilNat (costs * ((n : Nat) : α) / ((l : Nat) : α)))
     some (bucketsize, nb, l)
   else none
 
-/-- `(w, d)` of `with_point_query_properties(epsilon, delta)` -/
-def cmsParams (eps delta : Float) : Option (Nat × Nat) :=
-  if eps > 0 ∧ delta > 0 ∧ delta < 1 then
-    some (toUsize ((Float.exp 1 / eps).ceil), toUsize ((1 / delta).log.ceil))
+/-- `(w, d)` of `with_point_query_properties(epsilon, delta)`; `e` is `f64::consts::E` -/
+def cmsParams (eps delta : α) : Option (Nat × Nat) :=
+  if 0 < eps ∧ 0 < delta ∧ delta < 1 then
+    some (Transc.ceilNat (Transc.exp (1 : α) / eps), Transc.ceilNat (Transc.log ((1 : α) / delta)))
   else none
 
 /-- `width` of `LossyCounter::with_epsilon` -/
-def lossyWidth (eps : Float) : Option Nat :=
-  if eps > 0 ∧ eps < 1 then some (toUsize (1 / eps).ceil) else none
+def lossyWidth (eps : α) : Option Nat :=
+  if 0 < eps ∧ eps < 1 then some (Transc.ceilNat ((1 : α) / eps)) else none
 
-/-- the integer bound of `LossyCounter::query(threshold)` -/
-def lossyBound (threshold eps : Float) (n : Nat) : Nat :=
-  let v := ((threshold - eps) * Float.ofNat n).ceil
-  toUsize (if v < 0 then 0 else if v ≥ 0 then v else 0)
+/-- the integer bound of `LossyCounter::query(threshold)`: `⌈(threshold − ε)·n⌉.max(0)` -/
+def lossyBound (threshold eps : α) (n : Nat) : Nat :=
+  Transc.ceilNat ((threshold - eps) * ((n : Nat) : α))
 
+/-- `BloomFilter::len()`: `(-m / k * ln(1 - x/m)) as usize` for `x` set bits -/
+def bloomLen (m k x : Nat) : Nat :=
+  let mf : α := ((m : Nat) : α)
+  let kf : α := ((k : Nat) : α)
+  let xf : α := ((x : Nat) : α)
+  Transc.floorNat ((-mf) / kf * Transc.log ((1 : α) - xf / mf))
+
+end
 end Pds.Sizing
